@@ -28,6 +28,7 @@ func checkC05(p *Prog, r *Report) {
 	// start in lock-step with the calendar (shared with C04.R7)
 	c04StartOffset(p, r, "C05.R7")
 	c05FreshFiles(p, r)
+	sessionOpenRule(p, r, "C05.R9")
 	// consecutive dates with correct leap days rest on the date arithmetic (shared with C12.R1/R2)
 	c12Tables(p, r, "C05.R5a")
 	c12Leap(p, r, "C05.R5b")
